@@ -225,7 +225,8 @@ def zid_assignment_eval(run: Run, model: PyModel, rid: str) -> None:
             return get_next(I, args, kwargs, st, node)
         if recv.cls.startswith("ext:"):
             # loggers return nothing; anything else (datetime.strptime on the scenario's valid dates, ...) yields some object
-            return [(None if "ogger" in recv.cls or "logrus" in recv.cls else Opaque(recv.cls + "." + name + "!"), st)]
+            is_log = ("ogger" in recv.cls or "logrus" in recv.cls) and name in ("debug", "info", "warning", "warn", "error", "exception", "critical", "log", "bind")
+            return [(None if is_log else Opaque(recv.cls + "." + name + "!"), st)]
         return None
 
     ZM = "zorg.storage.sql._zid_manager.ZIDManager"
